@@ -685,21 +685,15 @@ theorem bay_offsets_are_range_starts_aux (b : Bay K) :
     unfold Bay.tsizes
     omega
 
-theorem fold2_size (l : List (Blade2D K)) (z : Nat) (h : ∀ s ∈ l, s.flange ≠ none) :
-    l.foldl (fun acc s => acc.bind fun z => s.flange.map fun f => z + f.1) (some z) =
+theorem fold2_size (l : List (Blade2D K)) (z : Nat) :
+    l.foldl (fun acc s => acc.map fun z => z + s.flangeSize) (some z) =
       some (z + (l.map Blade2D.flangeSize).sum) := by
   induction l generalizing z with
   | nil => simp
   | cons s t ih =>
-    have hs := h s List.mem_cons_self
-    rcases s with ⟨base, flange, css, csf, cff⟩
-    cases flange with
-    | none => exact absurd rfl hs
-    | some f =>
-      simp only [List.foldl_cons, Option.bind_some, Option.map_some, List.map_cons, List.sum_cons,
-        Blade2D.flangeSize]
-      rw [ih _ (fun x hx => h x (List.mem_cons_of_mem _ hx))]
-      simp [Nat.add_assoc]
+    simp only [List.foldl_cons, Option.map_some, List.map_cons, List.sum_cons]
+    rw [ih]
+    simp [Nat.add_assoc]
 
 theorem foldT_size (l : List (TStiff K)) (z : Nat) :
     l.foldl (fun acc s => acc.map fun z => z + (s.baseSize + s.flangeSize)) (some z) =
@@ -717,48 +711,19 @@ theorem foldT_none (l : List (TStiff K)) :
   | nil => rfl
   | cons s t ih => simpa using ih
 
-theorem fold2_none (l : List (Blade2D K)) :
-    l.foldl (fun acc s => acc.bind fun z => s.flange.map fun f => z + f.1) (none : Option Nat) = none := by
-  induction l with
-  | nil => rfl
-  | cons s t ih => simpa using ih
-
-theorem fold2_none_of_mem (l : List (Blade2D K)) (z : Nat) (h : ∃ s ∈ l, s.flange = none) :
-    l.foldl (fun acc s => acc.bind fun z => s.flange.map fun f => z + f.1) (some z) = none := by
-  induction l generalizing z with
-  | nil => simp at h
-  | cons s t ih =>
-    rcases s with ⟨base, flange, css, csf, cff⟩
-    cases flange with
-    | none => simp only [List.foldl_cons, Option.bind_some, Option.map_none]; exact fold2_none t
-    | some f =>
-      simp only [List.foldl_cons, Option.bind_some, Option.map_some]
-      apply ih
-      obtain ⟨s, hs, hn⟩ := h
-      rcases List.mem_cons.mp hs with rfl | hs
-      · simp at hn
-      · exact ⟨s, hs, hn⟩
-
 theorem pairs_sum (ts : List (TStiff K)) :
     (ts.flatMap fun s => [s.baseSize, s.flangeSize]).sum = (ts.map fun s => s.baseSize + s.flangeSize).sum := by
   induction ts with
   | nil => rfl
   | cons s t ih => simp [List.flatMap_cons, ih, Nat.add_assoc]
 
-theorem bay_size_eq_sum_partial_aux (b : Bay K) (h : ∀ s ∈ b.b2, s.flange ≠ none) :
-    bayGetSize b = some b.rangeSizes.sum := by
+theorem bay_size_eq_sum_aux (b : Bay K) : bayGetSize b = some b.rangeSizes.sum := by
   unfold bayGetSize
   simp only
-  rw [fold2_size _ _ h, foldT_size]
+  rw [fold2_size, foldT_size]
   unfold Bay.rangeSizes Bay.fsizes
   rw [List.sum_cons, List.sum_append, pairs_sum]
   simp [Nat.add_assoc]
-
-theorem bay_size_raises_aux (b : Bay K) (h : ∃ s ∈ b.b2, s.flange = none) : bayGetSize b = none := by
-  unfold bayGetSize
-  simp only
-  rw [fold2_none_of_mem _ _ h]
-  exact foldT_none _
 
 /-! ### bay: placement, symmetry, skin partition, stiffener contribution -/
 
@@ -926,19 +891,15 @@ theorem add_blade2d_contribution_aux (kind : MatKind) (b : Bay K) (hts : b.ts = 
 
 /-! ### bay force vector -/
 
-theorem foldF2 (l : List (Option (List K))) (z : List K) (h : ∀ s ∈ l, s ≠ none) :
-    l.foldl (fun acc s => acc.bind fun z => s.map fun f => z ++ f) (some z) =
+theorem foldF2 (l : List (Option (List K))) (z : List K) :
+    l.foldl (fun acc s => acc.map fun z => z ++ s.getD []) (some z) =
       some (z ++ (l.filterMap id).flatten) := by
   induction l generalizing z with
   | nil => simp
   | cons s t ih =>
-    have hs := h s List.mem_cons_self
     cases s with
-    | none => exact absurd rfl hs
-    | some f =>
-      simp only [List.foldl_cons, Option.bind_some, Option.map_some]
-      rw [ih _ (fun x hx => h x (List.mem_cons_of_mem _ hx))]
-      simp
+    | none => simp only [List.foldl_cons, Option.map_some, Option.getD_none, List.append_nil]; rw [ih]; simp
+    | some f => simp only [List.foldl_cons, Option.map_some, Option.getD_some]; rw [ih]; simp
 
 theorem foldFT (l : List (List K × List K)) (z : List K) :
     l.foldl (fun acc s => acc.map fun z => z ++ s.1 ++ s.2) (some z) =
@@ -950,12 +911,11 @@ theorem foldFT (l : List (List K × List K)) (z : List K) :
     rw [ih]
     simp
 
-theorem bay_fext_concat_partial_aux (skin : List K) (b2 : List (Option (List K))) (ts : List (List K × List K))
-    (h : ∀ s ∈ b2, s ≠ none) :
+theorem bay_fext_concat_aux (skin : List K) (b2 : List (Option (List K))) (ts : List (List K × List K)) :
     bayFext skin b2 ts = some ((skin :: (b2.filterMap id ++ ts.flatMap fun s => [s.1, s.2])).flatten) := by
   unfold bayFext
   simp only
-  rw [foldF2 _ _ h, foldFT]
+  rw [foldF2, foldFT]
   simp
 
 end Compmech.Asm
